@@ -114,7 +114,8 @@ def handler : Driver.Handler := fun c i => do
     | .ok pj => (match PlanJson.planOrErr pj with | .ok (.ok p) => some p | _ => none)
     | .error _ => none
   -- K 1: "sql" (ExecutionContext::sql) is the production configuration
-  let kSql := if ran (ans "sql") || ran (ans "prod") then ans "sql" == ans "prod" else true
+  -- (when both deviate from the reference the deviation itself is the oracle's business: ANY_VALUE picks differ between runs)
+  let kSql := if ran (ans "sql") || ran (ans "prod") then ans "sql" == ans "prod" || (ans "sql" != ref && ans "prod" != ref) else true
   -- K 2: translated gates vs. what the rules did
   let firedGkr := firedRules.contains "only:GroupKeyReduction"
   let firedPj := firedRules.contains "only:PackedJoinKeys"
